@@ -2,11 +2,15 @@
 import sys, json
 from pvmon import common, ref as R, oracle as O, solvercase as SC
 import importlib
-prop, idx = sys.argv[1], int(sys.argv[2])
-tier = sys.argv[3] if len(sys.argv) > 3 else "quick"
-seed = int(sys.argv[4]) if len(sys.argv) > 4 else 0
+prop = sys.argv[1]
 mod = importlib.import_module("pvmon.props." + prop)
-spec = mod.gen_case(common.case_rng(prop, tier, seed, idx), tier, idx)
+if sys.argv[2].endswith(".json"):
+    spec = json.load(open(sys.argv[2]))["spec"]
+else:
+    idx = int(sys.argv[2])
+    tier = sys.argv[3] if len(sys.argv) > 3 else "quick"
+    seed = int(sys.argv[4]) if len(sys.argv) > 4 else 0
+    spec = mod.gen_case(common.case_rng(prop, tier, seed, idx), tier, idx)
 print(SC.source_of(spec))
 sess, evs = SC.run(spec)
 for n, ev in enumerate(evs):
@@ -24,7 +28,7 @@ for n, ev in enumerate(evs):
     for rec in ev["records"]:
         for b in rec.batches:
             print("   batch vars", [getattr(fm, "fullname", "?") for fm, *_ in b.vars], "nonrand", [(fm.fullname, v) for fm, v in b.nonrand], "hard", b.n_hard, "soft", b.n_soft)
-    pw = O.pointwise(sess, "o0", ev, sols=sols)
+    pw = O.pointwise(sess, ev["op"].get("o", "o0"), ev, sols=sols)
     print("   pointwise:", pw["status"], pw.get("n_mismatch"), pw["mismatches"][:4])
     if ev["outcome"] == "ok":
         print("   values", O.post_env(call, ev["post"]), "violated:", O.check_values(call, ev["post"]))
